@@ -1,6 +1,7 @@
 import Mp.MarkProofs
 import Mp.ProofsG
 import Mp.NullProofs
+import Mp.NumeralProofs
 /-! C19 — property theorems (proved in the imported modules; statements are checked there, axioms audited here). -/
 #print axioms Mp.propagate
 #print axioms Mp.missing_marked_key
@@ -14,3 +15,6 @@ import Mp.NullProofs
 #print axioms Mp.null_predicates_reject_arguments
 #print axioms Mp.splitMark_marked
 #print axioms Mp.splitMark_unmarked
+#print axioms Mp.Dec.ofString_alphabet
+#print axioms Mp.Dec.not_numeral_of_foreign_byte
+#print axioms Mp.Dec.empty_not_numeral
